@@ -96,7 +96,8 @@ def build(P):
         P.verify(f"{TR}:HomogeneousMatrix.transform", name=f"HomogeneousMatrix.transform[{cname}]",
                  contract=Contract(f"{TR}:HomogeneousMatrix.transform", cut=False, params=dict(pr, self=lambda it: mk_matrix(it, "a")),
                                    raises={"ValueError": f"{X}.src is not self.dst"},
-                                   ensures=E("chained_transform", f"result.src is self.src and result.dst is {X}.dst and "
+                                   ensures=E("composition_requires_matching_frames", f"{X}.src is self.dst",
+                                             "chained_transform", f"result.src is self.src and result.dst is {X}.dst and "
                                                                   f"same_matrix(result.matrix, mat_hom(mat_pos(mat_mul({X}.matrix, self.matrix)), mat_quat(mat_mul({X}.matrix, self.matrix))))")))
     for cname, pr in (("nothing", dict(args=lambda it: VTuple(()), kwargs=lambda it: it.ctx.new_cell("dict", ([], [])))),
                       ("three positionals", dict(args=lambda it: VTuple((vec(it, "p"), Q.fresh(it.ctx, "q"), Q.fresh(it.ctx, "r"))), kwargs=lambda it: it.ctx.new_cell("dict", ([], [])))),
